@@ -35,7 +35,8 @@ def binding(props):
         for mode in ("flip", "drop"):
             if mode == "drop" and not C.SELFTEST_DROP.get(MODULE_OF[prop]):
                 continue
-            rc, out = check(prop, {"VERIF_SELFTEST": "%s:%s" % (MODULE_OF[prop], mode)})
+            which = {"C12": ":Loc"}.get(prop, "") if mode == "drop" else ""      # C12's traces are rewrite histories: a location event is what matters there
+            rc, out = check(prop, {"VERIF_SELFTEST": "%s:%s%s" % (MODULE_OF[prop], mode, which)})
             good = rc == 1 and "VIOLATION property=%s" % prop in out
             ok &= good
             print("binding %s %-5s -> rc=%d %s" % (prop, mode, rc, "rejected as expected" if good else "NOT REJECTED"), flush=True)
